@@ -183,6 +183,15 @@ fn monitors(cx: &mut Ctx, op: &Op, ok: bool, before: &Snap, after: &Snap) {
                 if got >= b(r0[*j]) { out.monitor_fail("C04", "proceeds not below the ask reserve", rp.clone()); }
             } else { out.monitor_fail("C04", "swap executed although the curve computation fails on the same reserves", rp.clone()); }
         }
+        Op::Provide { d, .. } if before.supply > 0 => {
+            // a deposit is priced on the reported reserves (balance - pending protocol fee, whatever the asset kind): the LP minted is the
+            // pool's own mint formula (through the hook) on those reserves
+            let t: Ramp5 = (before.cfg[0], before.cfg[1], before.height, before.cfg[2], before.cfg[3]);
+            if let Outcome::Ok(m) = crate::c04::impl_mint(t, *d, r0, before.supply) {
+                let minted = after.supply - before.supply;
+                if m != minted { out.monitor_fail("C04", &format!("a deposit minted {} LP but the mint formula on the reported reserves (balances minus pending protocol fees) gives {}", minted, m), rp.clone()); }
+            }
+        }
         Op::Withdraw { u, amount } => {
             for k in 0..3 {
                 let got = b(after.user[*u][k] - before.user[*u][k]);
